@@ -238,7 +238,7 @@ func (w *world) browserCase(f *idp, r *c.Rng, maxLen int, script []bStep) c.Case
 				s := o.Sets[len(o.Sets)-1]
 				j.sess = &s
 			}
-			steps = append(steps, fmt.Sprintf("(BvSignIn %s %s %s %s, BoSi %s %s)", pkind(slug), sc.Req.coq(), refreshCoq(sc.Refresh), validateCoq(sc.Validate), sent, o.coq()))
+			steps = append(steps, fmt.Sprintf("(BvSignIn %s %s %s %s, BoSi %s %s)", pkind(slug), sc.Req.coq(), refreshCoq(sc.Refresh), validateCoq(sc.Validate, slug), sent, o.coq()))
 			js = append(js, map[string]interface{}{"sign_in": sc, "at": v,
 				"observed": map[string]interface{}{"status": o.Status, "has_code": o.HasCode, "cookie_ops": o.OpsJSON, "idp_calls": o.Calls}})
 
@@ -345,5 +345,5 @@ func (w *world) browserCase(f *idp, r *c.Rng, maxLen int, script []bStep) c.Case
 		}
 	}
 	return c.Case{Coq: fmt.Sprintf("CBrowser %s %s %s", w.tab(emails...), w.cfgCoq(), c.List(steps)),
-		JSON: map[string]interface{}{"kind": "browser-history", "provider": slug, "rule": map[string]interface{}{"addresses": w.addrs, "domains": w.doms}, "steps": js}}
+		JSON: map[string]interface{}{"kind": "browser-history", "provider": slug, "rule": w.ruleJSON(), "steps": js}}
 }
